@@ -160,6 +160,7 @@ class bptk():
         self.abmrunner = HybridRunner(self.scenario_manager_factory) #TODO rename self.abmrunner to self.model_runner if still needed
         self.session_state = None
         self._lock_guard = threading.Lock()
+        self._locked = False # lock of the step-advancing requests; belongs to the instance, not to session_state (which begin_session, end_session and _set_state replace or drop while a request may be stepping)
 
     def train_scenarios(self, scenarios, scenario_managers, episodes=1, agents=[], agent_states=[],
                           agent_properties=[], agent_property_types=[], series_names={}, return_df=False,
@@ -263,17 +264,11 @@ class bptk():
                     )
 
     def lock(self):
-        if self.session_state is not None:
-            self.session_state["lock"] = True
+        self._locked = True
     def unlock(self):
-        if self.session_state is not None:
-            self.session_state["lock"] = False
+        self._locked = False
     def is_locked(self):
-        if self.session_state is not None:
-            if(not "lock" in self.session_state.keys()):
-                return False
-            return self.session_state["lock"]
-        return False
+        return self._locked
     def try_lock(self):
         """Take the session lock if it is free. Test and set happen atomically; returns False if the lock was already taken."""
         with self._lock_guard:
